@@ -599,6 +599,245 @@ theorem check_verdict_iff (rules : List Rule) (ops : List Op) (id res : String) 
   rw [(entry_eq_check_commit _ id res a at').1, ← admit_iff_partial rules ops id res a at' hev hp]
   simp
 
+/-! ### the cap under schedules: at most `P − 1` above the threshold for `P` goroutines inside `api.Entry` -/
+
+/-- parked entries with verdict "pass" that rule `r` accounts to value `v` -/
+def parkedOf (r : Rule) (v : Val) (pend : List Pend) : Nat :=
+  pend.countP (fun p => decide (p.verdict = Res.pass) && (r.sel p.res p.args p.atts == v))
+
+/-- the schedule never has more than `P` goroutines between the start of their `api.Entry` and the end of its
+statistic slots (parked ones, plus the one executing a sequential `entry`) -/
+def within (P : Nat) : St → List Op → Prop
+  | s, [] => s.pend.length ≤ P
+  | s, op :: ops =>
+    s.pend.length + (match op with | .entry .. => 1 | _ => 0) ≤ P ∧ within P (step s op) ops
+
+theorem within_pend (P : Nat) (s : St) (ops : List Op) (h : within P s ops) : s.pend.length ≤ P := by
+  cases ops with
+  | nil => exact h
+  | cons op ops => have := h.1; omega
+
+theorem parkedOf_le (r : Rule) (v : Val) (pend : List Pend) : parkedOf r v pend ≤ pend.length :=
+  List.countP_le_length
+
+def CappedP (P : Nat) (s : St) : Prop :=
+  ∀ t ∈ s.tcs, t.ev = false → ∀ v, v ≠ Val.nil →
+    (liveOf t.rule v s.live : Int) + parkedOf t.rule v s.pend ≤ t.rule.thrOf v + P - 1
+
+/-- a controller that did not object to a request had room for the value it selects -/
+theorem room_of_not_violates (s : St) (hinv : Inv s) (hpos : ∀ t ∈ s.tcs, ∀ v, 0 < t.rule.thrOf v)
+    (res : String) (a : List Val) (at' : List (String × Val)) (hb : (checkTcs res a at' s.tcs).2 = false)
+    (t : Tc) (hm : t ∈ s.tcs) (hev : t.ev = false) (hv : t.rule.sel res a at' ≠ Val.nil) :
+    (liveOf t.rule (t.rule.sel res a at') s.live : Int) < t.rule.thrOf (t.rule.sel res a at') := by
+  have hnv : t.violates res a at' = false := by
+    have := checkTcs_blocked res a at' s.tcs
+    rw [hb] at this
+    exact (List.any_eq_false.mp this.symm) t hm |> fun h => by simpa using h
+  have hvi := violates_iff t s.live res a at' (hinv.1 t hm) hev (fun _ => Or.inr (hpos t hm _))
+  by_contra hcon
+  have := hvi.mpr ⟨hv, hcon⟩
+  rw [hnv] at this; cases this
+
+theorem cappedP_step (P : Nat) (s : St) (op : Op) (ops : List Op) (hw : within P s (op :: ops)) (hinv : Inv s)
+    (hc : CappedP P s) (hpos : ∀ t ∈ s.tcs, ∀ v, 0 < t.rule.thrOf v) : CappedP P (step s op) := by
+  have hnext := within_pend P _ _ hw.2
+  cases op with
+  | flowBlock res => exact hc
+  | exit id =>
+    simp only [step]; unfold exit
+    split
+    · exact hc
+    · intro t' ht' hev v hv
+      simp only [List.mem_map] at ht'
+      obtain ⟨t, hm, rfl⟩ := ht'
+      rw [bump_ev] at hev
+      rw [bump_rule]
+      have := hc t hm hev v hv
+      have h2 := liveOf_eraseP_le t.rule v (fun e => e.id == id) s.live
+      show (liveOf t.rule v (s.live.eraseP _) : Int) + parkedOf t.rule v s.pend ≤ _
+      omega
+  | commit id =>
+    simp only [step]; unfold commit
+    split
+    · exact hc
+    · rename_i p hf
+      have hcnt : ∀ (r : Rule) (v : Val), parkedOf r v (s.pend.eraseP fun p => p.id == id) +
+          (if (decide (p.verdict = Res.pass) && (r.sel p.res p.args p.atts == v)) = true then 1 else 0) = parkedOf r v s.pend :=
+        fun r v => countP_eraseP_find _ _ s.pend p hf
+      split
+      · rename_i hvp
+        intro t' ht' hev v hv
+        simp only [List.mem_map] at ht'
+        obtain ⟨t, hm, rfl⟩ := ht'
+        rw [bump_ev] at hev
+        rw [bump_rule]
+        have h0 := hc t hm hev v hv
+        have h1 := hcnt t.rule v
+        show (liveOf t.rule v ({ id := p.id, res := p.res, args := p.args, atts := p.atts } :: s.live) : Int) +
+          parkedOf t.rule v (s.pend.eraseP _) ≤ _
+        rw [liveOf_cons]
+        by_cases hs : t.rule.sel p.res p.args p.atts = v
+        · simp only [hvp, hs, decide_true, beq_self_eq_true, Bool.and_self, if_true] at h1 ⊢
+          push_cast; omega
+        · have : (t.rule.sel p.res p.args p.atts == v) = false := by simpa using hs
+          simp only [this, Bool.and_false, Bool.false_eq_true, if_false, Nat.add_zero] at h1
+          simp only [hs, if_false, Nat.add_zero]
+          omega
+      · rename_i hvp
+        intro t ht hev v hv
+        have h0 := hc t ht hev v hv
+        have h1 := hcnt t.rule v
+        have : decide (p.verdict = Res.pass) = false := by simpa using hvp
+        simp only [this, Bool.false_and, Bool.false_eq_true, if_false, Nat.add_zero] at h1
+        show (liveOf t.rule v s.live : Int) + parkedOf t.rule v (s.pend.eraseP _) ≤ _
+        omega
+  | check id res a at' =>
+    simp only [step] at hnext ⊢
+    split
+    · exact hc
+    · rename_i hu
+      simp only [hu, Bool.false_eq_true, if_false] at hnext
+      unfold check at hnext ⊢
+      by_cases h1 : s.fb.contains res = true
+      · simp only [h1, if_true] at hnext ⊢
+        intro t ht hev v hv
+        have h0 := hc t ht hev v hv
+        show (liveOf t.rule v s.live : Int) + parkedOf t.rule v (_ :: s.pend) ≤ _
+        unfold parkedOf at h0 ⊢
+        rw [List.countP_cons]
+        simp only [decide_false, Bool.false_and, Bool.false_eq_true, if_false, Nat.add_zero, reduceCtorEq]
+        exact h0
+      · simp only [h1, Bool.false_eq_true, if_false] at hnext ⊢
+        intro t' ht' hev v hv
+        obtain ⟨t, hm, hr, hk⟩ := checkTcs_keeps res a at' s.tcs t' ht'
+        have hev0 := (hk hev).1
+        have h0 := hc t hm hev0 v hv
+        rw [hr]
+        show (liveOf t.rule v s.live : Int) + parkedOf t.rule v (_ :: s.pend) ≤ _
+        unfold parkedOf at h0 ⊢
+        rw [List.countP_cons]
+        by_cases hb : (checkTcs res a at' s.tcs).2 = true
+        · simp only [hb, if_true, decide_false, Bool.false_and, Bool.false_eq_true, if_false, Nat.add_zero, reduceCtorEq]
+          exact h0
+        · have hb' : (checkTcs res a at' s.tcs).2 = false := by simpa using hb
+          simp only [hb', Bool.false_eq_true, if_false, decide_true, Bool.true_and]
+          by_cases hs : t.rule.sel res a at' = v
+          · have hroom := room_of_not_violates s hinv hpos res a at' hb' t hm hev0 (by rw [hs]; exact hv)
+            rw [hs] at hroom
+            have hle : List.countP (fun p => decide (p.verdict = Res.pass) && (t.rule.sel p.res p.args p.atts == v)) s.pend
+                ≤ s.pend.length := List.countP_le_length
+            simp only [List.length_cons] at hnext
+            simp only [hs, beq_self_eq_true, if_true]
+            push_cast; omega
+          · have : (t.rule.sel res a at' == v) = false := by simpa using hs
+            simp only [this, Bool.false_eq_true, if_false, Nat.add_zero]
+            exact h0
+  | entry id res a at' =>
+    have hroomP : s.pend.length + 1 ≤ P := hw.1
+    simp only [step]
+    split
+    · exact hc
+    · by_cases hp : (entry s id res a at').2 = Res.pass
+      · have hlive := admitted_counted s id res a at' hp
+        have hb : (checkTcs res a at' s.tcs).2 = false := by
+          unfold entry at hp
+          by_cases h1 : s.fb.contains res = true
+          · simp only [h1, if_true] at hp; cases hp
+          · by_cases h2 : (checkTcs res a at' s.tcs).2 = true
+            · simp only [h1, h2, Bool.false_eq_true, if_false, if_true] at hp; cases hp
+            · simpa using h2
+        have hst : (entry s id res a at').1.tcs =
+            (s.tcs.map (fun t => t.touchFor res a at')).map (fun t => t.bump res a at' 1) ∧
+            (entry s id res a at').1.pend = s.pend := by
+          unfold entry
+          by_cases h1 : s.fb.contains res = true
+          · unfold entry at hp; simp only [h1, if_true] at hp; cases hp
+          · simp only [h1, hb, Bool.false_eq_true, if_false]
+            rw [checkTcs_pass res a at' s.tcs hb]
+            simp
+        intro t' ht' hev v hv
+        rw [hst.1] at ht'
+        rw [hst.2]
+        simp only [List.map_map, List.mem_map, Function.comp] at ht'
+        obtain ⟨t, hm, rfl⟩ := ht'
+        rw [bump_ev] at hev
+        have hev0 := touchFor_ev t res a at' hev
+        rw [bump_rule, touchFor_rule, hlive, liveOf_cons]
+        have h0 := hc t hm hev0 v hv
+        by_cases hs : t.rule.sel res a at' = v
+        · have hroom := room_of_not_violates s hinv hpos res a at' hb t hm hev0 (by rw [hs]; exact hv)
+          rw [hs] at hroom
+          have hle := parkedOf_le t.rule v s.pend
+          simp only [hs, if_true]
+          push_cast; omega
+        · simp only [hs, if_false, Nat.add_zero]; exact h0
+      · have hlive := blocked_not_counted s id res a at' hp
+        have hpend : (entry s id res a at').1.pend = s.pend := by
+          unfold entry
+          by_cases h1 : s.fb.contains res = true
+          · simp only [h1, if_true]
+          · by_cases h2 : (checkTcs res a at' s.tcs).2 = true
+            · simp only [h1, h2, Bool.false_eq_true, if_false, if_true]
+            · simp only [h1, h2, Bool.false_eq_true, if_false]
+        intro t' ht' hev v hv
+        rw [hlive, hpend]
+        have : ∃ t ∈ s.tcs, Keeps t t' := by
+          unfold entry at ht'
+          by_cases h1 : s.fb.contains res = true
+          · simp only [h1, if_true] at ht'; exact ⟨t', ht', keeps_refl _⟩
+          · by_cases h2 : (checkTcs res a at' s.tcs).2 = true
+            · simp only [h1, h2, Bool.false_eq_true, if_false, if_true] at ht'
+              exact checkTcs_keeps res a at' s.tcs t' ht'
+            · unfold entry at hp; simp only [h1, h2, Bool.false_eq_true, if_false] at hp
+              exact absurd trivial hp
+        obtain ⟨t, hm, hr, hk⟩ := this
+        rw [hr]
+        exact hc t hm (hk hev).1 v hv
+
+/-- **C06, the cap under any schedule.** If at most `P` goroutines are ever inside `api.Entry` at once (`within P`),
+all thresholds are positive and the controller has not evicted, then at every moment the entries in flight for a value
+plus the admitted-but-not-yet-counted ones stay within `threshold(v) + P − 1`.  `P = 1` is the sequential cap
+`live(v) ≤ threshold(v)`; `overshoot_witness` shows the bound is attained for `P = 2`. -/
+theorem capped_sched (P : Nat) (rules : List Rule) (ops : List Op) (hw : within P (init rules) ops) (hP : 1 ≤ P)
+    (hpos : ∀ r ∈ rules, ∀ v, 0 < r.thrOf v) :
+    ∀ t ∈ (run (init rules) ops).tcs, t.ev = false → ∀ v, v ≠ Val.nil →
+      (liveOf t.rule v (run (init rules) ops).live : Int) ≤ t.rule.thrOf v + P - 1 := by
+  have key : ∀ (ops : List Op) (s : St), within P s ops → Inv s → CappedP P s →
+      (∀ t ∈ s.tcs, ∀ v, 0 < t.rule.thrOf v) → CappedP P (run s ops) := by
+    intro ops
+    induction ops with
+    | nil => intro s _ _ hc _; exact hc
+    | cons op ops ih =>
+      intro s hw hinv hc hp
+      apply ih (step s op) hw.2 (inv_step s op hinv) (cappedP_step P s op ops hw hinv hc hp)
+      intro t ht
+      have : t.rule ∈ (step s op).tcs.map (·.rule) := List.mem_map_of_mem ht
+      rw [step_rules] at this
+      obtain ⟨t0, ht0, hr⟩ := List.mem_map.mp this
+      rw [← hr]; exact hp t0 ht0
+  have hfin := key ops (init rules) hw (inv_init rules) (by
+    intro t ht _ v _
+    have : t.rule ∈ rules.filter Rule.valid := by
+      simp only [init, load, List.mem_map] at ht
+      obtain ⟨r, hr, rfl⟩ := ht; exact hr
+    have h := hpos _ (List.mem_of_mem_filter this) v
+    simp only [init, load, liveOf, parkedOf, List.countP_nil, Nat.cast_zero]
+    omega) (by
+    intro t ht v
+    have : t.rule ∈ rules.filter Rule.valid := by
+      simp only [init, load, List.mem_map] at ht
+      obtain ⟨r, hr, rfl⟩ := ht; exact hr
+    exact hpos _ (List.mem_of_mem_filter this) v)
+  intro t ht hev v hv
+  have := hfin t ht hev v hv
+  omega
+
+/-- the witness schedule has two goroutines inside `api.Entry` at once and attains `threshold + 2 − 1` -/
+example : within 2 (init [{ res := "r", thr := 1 }])
+    [.check "e1" "r" [Val.str "a"] [], .check "e2" "r" [Val.str "a"] [], .commit "e1", .commit "e2"] := by
+  simp only [within]
+  decide
+
 /-- known finding `check-then-act-overshoot`: threshold 1; two goroutines run their checks before either has run
 its statistic slot: both are admitted, two entries for one value are in flight (the cells stay exact: 2). -/
 def raceOps : List Op :=
